@@ -1141,6 +1141,13 @@ M('sweep11.http.content_len_sub', ['C12'], 'emitter/otlp/src/client/http.rs',
   'self.content_frame_len() + self.content_payload_len()',
   'self.content_frame_len() - self.content_payload_len()', 'content-length')
 
+M('sweep11.tokio.wait_fired_false', ['C08'], 'batcher/src/tokio.rs',
+  '    if notified.try_recv().is_ok() {\n        return true;',
+  '    if notified.try_recv().is_ok() {\n        return false;', 'R4:tokio::wait')
+M('sweep11.tokio.wait_okok_false', ['C08'], 'batcher/src/tokio.rs',
+  '        Ok(Ok(())) => true,',
+  '        Ok(Ok(())) => false,', 'R4:tokio::wait')
+
 # ---- round 6 (own probing of the blocking entry points): Trigger, send_or_wait, callbacks ------------------------------------------
 M("C07.wait_zero_timeout_reports_flushed", ["C07"], "batcher/src/sync.rs",
   "            if timeout == Duration::ZERO {\n                return false;", "            if timeout == Duration::ZERO {\n                return true;", "C07.R4:Trigger")
